@@ -129,7 +129,7 @@ class ApplicationModeField(StringField):
     """
 
     storage_type = str
-    HELPER_MODE_PATTERN = re.compile("^[a-zA-Z0-9_]+$")
+    HELPER_MODE_PATTERN = re.compile(r"^[a-zA-Z0-9_]+\Z")
 
     def __init__(
         self, modes: Optional[List[str]] = None, create_helpers: bool = True, **kwargs
